@@ -1,14 +1,78 @@
 (* C09 — rate-limiting operators never invent, duplicate or reorder items.
-   The window tasks of debounce / throttle are one-shot tasks with the window as delay, the
-   flush task of buffer_with_time is a repeating task; what they can do under ANY order and
-   timing of polls is given by the scheduler theorems below.  The operator-level statement
-   (outputs are a sub-sequence of the input, buffers partition it) is evaluated by the
-   extracted predicates subseq_ok / buffers_ok on every trace of the implementation and of
-   the model, see the check. *)
-From RxModel Require Import Sched.
-From RxSpec Require Import SchedSpec.
-From RxProofs Require SchedLaws.
+   The operator-level statements (outputs are a sub-sequence of the input, buffers partition
+   it) are theorems over the timed system for every label sequence; the same predicates
+   (subseq_ok / final_item_ok / buffers_ok) judge every trace of the implementation.  The window
+   tasks of debounce / throttle are one-shot tasks with the window as delay, the flush task of
+   buffer_with_time is a repeating task; what they can do under ANY order and timing of polls
+   is given by the scheduler theorems at the end. *)
+From RxModel Require Import Sched Timed.
+From RxSpec Require Import SchedSpec TimedSpec.
+From RxProofs Require SchedLaws TimedLaws BufferLaws RateLaws.
 Open Scope N_scope.
+
+(* debounce and throttle (all three edges), for EVERY sequence of labels (input notifications,
+   polls of any task at any time and in any order, clock advances of any size, unsubscribe,
+   queries, the downstream starting to report finished): what is delivered consists of input
+   items only, each at most once, in input order (a sub-sequence of the accepted input), nothing
+   after a terminal or after unsubscribe() returned; and when the output completes, the last
+   input item has been delivered as the last item (debounce; throttle with a trailing edge) *)
+Theorem C09_debounce :
+  forall d ls, timed_ok (TDebounce d) ls (run_timed (TDebounce d) ls) = true.
+Proof. exact RateLaws.debounce_meets_spec. Qed.
+
+Theorem C09_throttle :
+  forall d e ls, timed_ok (TThrottle d e) ls (run_timed (TThrottle d e) ls) = true.
+Proof. exact RateLaws.throttle_meets_spec. Qed.
+
+Theorem C09_debounce_subsequence :
+  forall d ls, subseq_ok ls (run_timed (TDebounce d) ls) = true.
+Proof. exact RateLaws.debounce_subseq. Qed.
+
+Theorem C09_throttle_subsequence :
+  forall d e ls, subseq_ok ls (run_timed (TThrottle d e) ls) = true.
+Proof. exact RateLaws.throttle_subseq. Qed.
+
+(* debounce delivers an item exactly when no newer item arrived within the window: items spaced
+   by a full window are all delivered, each one window after it arrived (the executor polls a
+   task when it is scheduled and when its timer is due) ... *)
+Theorem C09_debounce_spaced :
+  forall d vs, 0 < d ->
+    TimedLaws.touts (run_timed (TDebounce d)
+       (flat_map (fun '(i, v) => [LSrc (Next v); LRun i; LAdv d; LRun i]) (combine (seq 0 (length vs)) vs)))
+    = map (fun '(i, v) => TOut (N.of_nat (S i) * d) (Next v)) (combine (seq 0 (length vs)) vs).
+Proof. exact RateLaws.debounce_spaced. Qed.
+
+(* ... and of a burst only the last item is delivered, one window after it arrived *)
+Theorem C09_debounce_burst :
+  forall d vs v, 0 < d ->
+    TimedLaws.touts (run_timed (TDebounce d)
+       (map (fun x => LSrc (Next x)) (vs ++ [v]) ++ [LRun (length vs); LAdv d; LRun (length vs)]))
+    = [TOut d (Next v)].
+Proof. exact RateLaws.debounce_burst. Qed.
+
+(* buffer_with_time / buffer_with_count_and_time, for EVERY sequence of labels (input
+   notifications, polls of any task at any time, clock advances, unsubscribe, queries, the
+   downstream starting to report finished): every buffer is non-empty and within the count limit,
+   the concatenation of the buffers is a prefix of the input, the whole input once the output
+   has completed; nothing after a terminal or after unsubscribe() returned *)
+Theorem C09_buffer_with_time :
+  forall d ls, buffers_ok None ls (run_timed (TBufferTime d) ls) = true.
+Proof. exact BufferLaws.buffer_time_meets_spec. Qed.
+
+Theorem C09_buffer_with_count_and_time :
+  forall n d ls, buffers_ok (Some n) ls (run_timed (TBufferCountTime n d) ls) = true.
+Proof. exact BufferLaws.buffer_count_time_meets_spec. Qed.
+
+(* when the executor runs as the flush timer falls due, each flush is exactly what arrived
+   during its window (any number of consecutive windows) *)
+Theorem C09_buffer_windows :
+  forall d vss, TimedLaws.touts (run_timed (TBufferTime d) (BufferLaws.windows d vss)) = BufferLaws.expected_flushes d 0 vss.
+Proof. exact BufferLaws.buffer_time_windows. Qed.
+
+Theorem C09_buffer_count_windows :
+  forall n d vss, Forall (fun vs => (length vs < n)%nat) vss ->
+    TimedLaws.touts (run_timed (TBufferCountTime n d) (BufferLaws.windows d vss)) = BufferLaws.expected_flushes d 0 vss.
+Proof. exact BufferLaws.buffer_count_time_windows. Qed.
 
 (* a window closes no earlier than its length after it was opened *)
 Theorem C09_window_not_early :
@@ -44,6 +108,35 @@ Check C09_cancelled_window_silent : forall cont ls now job delay,
 Check C09_flush_period : forall cont ls now j w,
     ticks_ok cont w 0 (now + w) (trun cont now (spawn (repeat_new now j w) None) ls) = true.
 
+Check C09_debounce : forall d ls, timed_ok (TDebounce d) ls (run_timed (TDebounce d) ls) = true.
+Check C09_throttle : forall d e ls, timed_ok (TThrottle d e) ls (run_timed (TThrottle d e) ls) = true.
+Check C09_debounce_subsequence : forall d ls, subseq_ok ls (run_timed (TDebounce d) ls) = true.
+Check C09_throttle_subsequence : forall d e ls, subseq_ok ls (run_timed (TThrottle d e) ls) = true.
+Check C09_debounce_spaced : forall d vs, 0 < d ->
+    TimedLaws.touts (run_timed (TDebounce d)
+       (flat_map (fun '(i, v) => [LSrc (Next v); LRun i; LAdv d; LRun i]) (combine (seq 0 (length vs)) vs)))
+    = map (fun '(i, v) => TOut (N.of_nat (S i) * d) (Next v)) (combine (seq 0 (length vs)) vs).
+Check C09_debounce_burst : forall d vs v, 0 < d ->
+    TimedLaws.touts (run_timed (TDebounce d)
+       (map (fun x => LSrc (Next x)) (vs ++ [v]) ++ [LRun (length vs); LAdv d; LRun (length vs)]))
+    = [TOut d (Next v)].
+Check C09_buffer_with_time : forall d ls, buffers_ok None ls (run_timed (TBufferTime d) ls) = true.
+Check C09_buffer_with_count_and_time : forall n d ls, buffers_ok (Some n) ls (run_timed (TBufferCountTime n d) ls) = true.
+Check C09_buffer_windows : forall d vss,
+    TimedLaws.touts (run_timed (TBufferTime d) (BufferLaws.windows d vss)) = BufferLaws.expected_flushes d 0 vss.
+Check C09_buffer_count_windows : forall n d vss, Forall (fun vs => (length vs < n)%nat) vss ->
+    TimedLaws.touts (run_timed (TBufferCountTime n d) (BufferLaws.windows d vss)) = BufferLaws.expected_flushes d 0 vss.
+
+Print Assumptions C09_debounce.
+Print Assumptions C09_throttle.
+Print Assumptions C09_debounce_subsequence.
+Print Assumptions C09_throttle_subsequence.
+Print Assumptions C09_debounce_spaced.
+Print Assumptions C09_debounce_burst.
+Print Assumptions C09_buffer_with_time.
+Print Assumptions C09_buffer_with_count_and_time.
+Print Assumptions C09_buffer_windows.
+Print Assumptions C09_buffer_count_windows.
 Print Assumptions C09_window_not_early.
 Print Assumptions C09_window_fires_once.
 Print Assumptions C09_cancelled_window_silent.
@@ -52,4 +145,16 @@ Print Assumptions C09_flush_period.
 Example C09_example :
   trun (fun _ => true) 0 (spawn (repeat_new 0 0 5) None) [TPoll 5; TPoll 3; TPoll 2; TPoll 7]
   = [ORan 0 5; ORan 1 10; ORan 2 17].
+Proof. vm_compute. reflexivity. Qed.
+
+Example C09_example_windows :
+  TimedLaws.touts (run_timed (TBufferTime 5) (BufferLaws.windows 5 [[VZ 1; VZ 2]; []; [VZ 3]]))
+  = [TOut 5 (Next (VL [VZ 1; VZ 2])); TOut 15 (Next (VL [VZ 3]))].
+Proof. vm_compute. reflexivity. Qed.
+
+(* throttle with the leading edge only drops the items arriving inside a window, also the last
+   one: the final-item clause is not claimed for it *)
+Example C09_example_leading_drops_last :
+  final_item_ok [LSrc (Next (VZ 1)); LSrc (Next (VZ 2)); LSrc Done]
+    (run_timed (TThrottle 2 ELeading) [LSrc (Next (VZ 1)); LSrc (Next (VZ 2)); LSrc Done]) = false.
 Proof. vm_compute. reflexivity. Qed.
